@@ -421,7 +421,12 @@ package transport
 //@   ensures [C17:one-request] nRT == 1
 //@   ensures [C17:only-a-200-answer-is-decoded] err == nil ==> gResp != nil && gResp.StatusCode == 200
 //@   callsite RoundTrip: [C17:request-goes-to-the-configured-url] arg0 == u.rt && arg1.URL != nil && arg1.URL != u.urlTemplate && fresh(arg1.URL) && arg1.URL.Scheme == u.urlTemplate.Scheme && arg1.URL.Host == u.urlTemplate.Host && arg1.URL.Path == u.urlTemplate.Path && arg1.URL.RawQuery == rawQuery
-//@   callsite LimitReader?: [C01:bounded-body] arg1 <= 65535
+//@   ghost gLR io.Reader = nil
+//@   ghost gN int64 = 0
+//@   aftercall LimitReader?: gLR = ret0
+//@   aftercall LimitReader?: gN = arg1
+//@   callsite LimitReader?: [C01:bounded-body] arg1 <= 65535 && arg0 == gResp.Body
+//@   callsite ReadFrom: [C01:reply-read-through-the-64k-limit] arg1 == gLR && gN == 65535
 //@ func copyMsg(m []byte) (b pool.Buffer)
 //@   props C20
 //@   modifies nothing
